@@ -26,7 +26,8 @@ def _case(draw, thorough):
                    'damping': draw(st.sampled_from([0.01, 0.05, 0.3, 1.0])), 'factor_decay': draw(st.sampled_from([0.95, 0.5])),
                    'kl_clip': 1e30 if clip == 'off' else draw(st.sampled_from([1e-3, 1e-5, 1e-2])), 'lr': draw(st.sampled_from([0.1, 1.0]))},
             'clip': clip, 'steps': draw(st.integers(1, 3)), 'data_seed': draw(st.integers(0, 999)),
-            'schedule': draw(st.lists(st.integers(0, 63), max_size=200)), 'flip': draw(st.booleans()), 'heuristic': draw(st.sampled_from(['compute', 'compute', 'memory']))}
+            'schedule': draw(st.lists(st.integers(0, 63), max_size=200)), 'flip': draw(st.booleans()), 'heuristic': draw(st.sampled_from(['compute', 'compute', 'memory'])),
+            'seq': draw(st.sampled_from([0, 0, 2, 3]))}
 
 
 class C11(Prop):
